@@ -1,5 +1,5 @@
 (* C10 - a circuit that cannot settle is stopped with an error; one that settles is not. *)
-From Verif Require Import Values Sim SimProofs.
+From Verif Require Import Values Sim SimProofs SimPathsProofs.
 Open Scope list_scope.
 
 (* Bounded work: no accepted schedule - any network, cyclic or not, any feedback through
@@ -27,6 +27,30 @@ Theorem C10_burst_progress : forall c s i,
   (exists v s', do_step c s (SEval i v) = Ok s') \/ (exists s', do_step c s SUnstable = Ok s').
 Proof. exact burst_progress. Qed.
 
+(* ... and one that settles is NOT stopped: on a topologically numbered network whose path
+   count fits into the limit (few_paths, the class the monitor exempts), a burst that consists of
+   set_output calls followed by evaluations only (no feedback into the sources) can never be
+   ended by the instability error - whatever the evaluation order was.  The proof bounds the
+   evaluations of block b by the number of paths ending in b (ghost counters, induction along
+   the numbering). *)
+Theorem C10_acyclic_no_false_alarm : forall c s sets evals s',
+  topo c = true -> (path_sum c <= eval_limit c)%nat -> (0 < nblocks c)%nat ->
+  burst_start c s -> all_sets sets = true -> all_evals evals = true ->
+  run c s (sets ++ evals) = Ok s' ->
+  do_step c s' SUnstable = Err EOther.
+Proof. exact clean_burst_no_false_alarm. Qed.
+
+(* bursts start at the beginning and after every idle step *)
+Theorem C10_burst_starts : forall c, burst_start c init_sim /\
+  forall s snap s', do_step c s (SIdle snap) = Ok s' -> burst_start c s'.
+Proof. intros c. split; [apply burst_start_init|apply burst_start_idle]. Qed.
+
+(* the per-block bound behind it: in such a burst block b is evaluated at most P c b times,
+   P c b = 1 + the sum of P over its combinational predecessors = number of paths ending in b *)
+Theorem C10_path_bound : forall c s ev, topo c = true -> J c s ev ->
+  forall b, (b < nblocks c)%nat -> (ev b + ind (mem b (sE s)) <= P c b)%nat.
+Proof. exact J_bound. Qed.
+
 (* non-vacuity: a ring of three inverters is stopped after exactly 3*3 evaluations *)
 Example C10_nonvacuous :
   let c := [CB FNot [("_"%string, IGroup [RBlk 2])]; CB FNot [("_"%string, IGroup [RBlk 0])];
@@ -43,3 +67,6 @@ Print Assumptions C10_burst_eval_bound.
 Print Assumptions C10_unstable_only_at_limit.
 Print Assumptions C10_idle_consistent.
 Print Assumptions C10_burst_progress.
+Print Assumptions C10_acyclic_no_false_alarm.
+Print Assumptions C10_burst_starts.
+Print Assumptions C10_path_bound.
